@@ -101,6 +101,22 @@ class GenRule(TermRule):
         kv, _ = it.eval(st, target.slice)
         self.ev(st, "setitem", base, term_of(kv[0][1]) if kv else "?", term_of(av))
 
+    def delete(self, it, st, stmt):
+        """`del m[k]` is an event (and may raise KeyError when declared so via raising["del"]); `del name` is not."""
+        outs = None
+        for t in stmt.targets:
+            if isinstance(t, ast.Subscript):
+                bv, _ = it.eval(st, t.value)
+                kv, _ = it.eval(st, t.slice) if not isinstance(t.slice, ast.Slice) else ([], [])
+                base = term_of(bv[0][1]) if bv else "?"
+                self.ev(st, "delitem", base, term_of(kv[0][1]) if kv else "?")
+                r = self.raising.get("del")
+                if r:
+                    outs = [Out("normal", st), self._raise(st, stmt, "del", r)]
+            elif isinstance(t, ast.Attribute) and isinstance(t.value, ast.Name):
+                self.ev(st, "delattr", t.value.id, t.attr)
+        return outs
+
     def on_yield(self, it, stmt, av, outs):
         res = []
         for o in outs:
@@ -196,6 +212,13 @@ class GenRule(TermRule):
                     if r:
                         outs.append(self._raise(st, node, nm, r))
                     return outs
+            if v is not None and v.sym and v.kind == "unk" and not v.sym.startswith(("list(", "tuple(", "p:*")) and ("(" in v.sym or v.sym.startswith("p:")):
+                # calling a value computed earlier (a function looked up in a table, a partial, ...): a term over that value
+                outs = [Out("normal", st, tv(T("call", v.sym, *args)))]
+                r = self.raising.get("call")
+                if r:
+                    outs.append(self._raise(st, node, "call", r))
+                return outs
             if v is None and q is None:
                 host = it.m.funcs.get(getattr(it, "func_qual", None) or "")
                 if host is not None and any(isinstance(n_, (ast.FunctionDef, ast.AsyncFunctionDef)) and n_.name == f.id and n_ is not host.node for n_ in ast.walk(host.node)):
